@@ -4,7 +4,8 @@
 // parser + cl.NewPackage with recover enabled). For every input for which the compiler reports NO error the
 // written Go must (1) be written at all, (2) parse with go/parser, (3) type-check with go/types (in-process)
 // and (4) build with the Go toolchain (`go build`, one package per input, batched). Oracle: no input with
-// (compiler success AND Go rejects). Violations are keyed by the class of the Go diagnostic.
+// (compiler success AND Go rejects). Violations are keyed by the class of the Go diagnostic and the kind of
+// edit that produced the input.
 package main
 
 import (
@@ -97,11 +98,11 @@ func evalInProcess(k Case) (o outcome) {
 	var out []byte
 	var werr error
 	if g := engine.Guard(func() { out, werr = pkg.ToSource() }); g != nil {
-		o.fail = &engine.Failure{Key: "output-not-written:panic@" + nbrun.PanicSite(g), What: "the compiler reported no error but writing the Go source panics: " + g.What, Detail: det(g.Detail)}
+		o.fail = &engine.Failure{Key: "output-not-written:panic@" + nbrun.PanicSite(g) + editKind(k), What: "the compiler reported no error but writing the Go source panics: " + g.What, Detail: det(g.Detail)}
 		return
 	}
 	if werr != nil {
-		o.fail = &engine.Failure{Key: "output-not-written:error", What: "the compiler reported no error but writing the Go source fails", Detail: det(werr.Error())}
+		o.fail = &engine.Failure{Key: "output-not-written:error" + editKind(k), What: "the compiler reported no error but writing the Go source fails", Detail: det(werr.Error())}
 		return
 	}
 	o.out = out
@@ -111,7 +112,7 @@ func evalInProcess(k Case) (o outcome) {
 		if el, ok := perr.(scanner.ErrorList); ok && len(el) > 0 {
 			msg = el[0].Msg
 		}
-		o.fail = &engine.Failure{Key: "go-parse-error:" + diagClass(msg), What: "the compiler reported no error but go/parser rejects the written Go: " + msg, Detail: det("go/parser: " + perr.Error() + "\ngenerated Go:\n" + string(out))}
+		o.fail = &engine.Failure{Key: "go-parse-error:" + diagClass(msg) + editKind(k), What: "the compiler reported no error but go/parser rejects the written Go: " + msg, Detail: det("go/parser: " + perr.Error() + "\ngenerated Go:\n" + string(out))}
 		return
 	}
 	var terrs []types.Error
@@ -142,12 +143,26 @@ func evalInProcess(k Case) (o outcome) {
 				lines = append(lines, e.Error())
 			}
 		}
-		o.fail = &engine.Failure{Key: "go-rejects:" + diagClass(all[0].Msg), What: "the compiler reported no error but go/types rejects the written Go: " + all[0].Msg,
+		o.fail = &engine.Failure{Key: "go-rejects:" + diagClass(all[0].Msg) + editKind(k), What: "the compiler reported no error but go/types rejects the written Go: " + all[0].Msg,
 			Detail: det("go/types: " + strings.Join(lines, "\n          ") + "\ngenerated Go:\n" + string(out))}
 		return
 	}
 	o.goSrc = out
 	return
+}
+
+// editKind is the second component of every violation key: the menu item that produced the input
+// (the unmodified seed = "seed"). A missing check shows in the families of inputs that exercise it, so a
+// regression whose Go diagnostic falls into an already known class still yields a key of its own
+// unless the same class was already known for the same kind of edit.
+func editKind(k Case) string {
+	switch k.Edit.Kind {
+	case "none", "":
+		return "|seed"
+	case "assign":
+		return "|define-assign"
+	}
+	return "|" + k.Edit.Kind
 }
 
 // ---- Go diagnostic classes ----
@@ -259,7 +274,7 @@ func diagClass(msg string) string {
 
 func seeds(thorough bool) []neighbours.Prog {
 	var out []neighbours.Prog
-	maxTok, maxCorpus := 26, 80
+	maxTok, maxCorpus := 24, 80
 	if thorough {
 		maxTok, maxCorpus = 1<<30, 700
 	}
@@ -457,7 +472,10 @@ func main() {
 		rel, _ := filepath.Rel(root, d)
 		pkgs = append(pkgs, rel)
 	}
-	const batch = 500
+	batch := 500
+	if !c.Thorough() {
+		batch = 250 // the internal deadline is checked between batches
+	}
 	built := 0
 	confirmed := map[string]string{}
 	for i := 0; i < len(pkgs); i += batch {
@@ -533,7 +551,7 @@ func main() {
 		"production path: x/build Context.ParseFSDir (parser.ParseFSDir + cl.NewPackage, recover enabled) and Package.ToSource; inputs with parse errors are not compiled by this path and are not judged; a panic escaping the compiler is C07's subject and only counted here",
 		"the written Go is judged as a package of its own in a scratch module (go 1.23, requires github.com/qiniu/x and the repository); `package main` is renamed so that go build compiles without linking",
 		"soft go/types errors (unused variable, unused import, unused label) are errors of the Go compiler and count as rejection",
-		"violation keys are classes of the first Go diagnostic (names, types and positions stripped); the smallest witness of every class found by go/types is re-checked with go build and the class is renamed go-types-only-rejects if go build accepts it",
+		"violation keys are <class of the first Go diagnostic (names, types and positions stripped)>|<edit kind that produced the input: seed, delete, duplicate, ident, operator, literal, define-assign, drop-return, undeclared>; the smallest witness of every class found by go/types is re-checked with go build and the class is renamed go-types-only-rejects if go build accepts it",
 	}
 	c.Extra["bound"] = map[string]any{"seeds": len(sd), "edit_menu": neighbours.Menu, "excluded_seeds_importing_internal_packages": excludedSeeds}
 	c.Finish()
@@ -620,6 +638,6 @@ func buildFailure(k Case, msg string, goSrc []byte) *engine.Failure {
 		first = first[:i]
 	}
 	first = reBuildPos.ReplaceAllString(first, "")
-	return &engine.Failure{Key: "go-build-rejects:" + diagClass(first), What: "the compiler reported no error, go/parser and go/types accept the output, but go build rejects it: " + first,
+	return &engine.Failure{Key: "go-build-rejects:" + diagClass(first) + editKind(k), What: "the compiler reported no error, go/parser and go/types accept the output, but go build rejects it: " + first,
 		Detail: fmt.Sprintf("seed=%s edit=%+v\nXGo source (%s):\n%s\ngo build: %s\ngenerated Go:\n%s", k.Prog, k.Edit, k.File, k.Src, msg, goSrc)}
 }
